@@ -4,6 +4,14 @@ use super::*;
 
 fn noop_bytes_drop(_b: &mut Bytes) {}
 
+/// Environment fake: cloning a message handle yields a second handle to the same bytes without
+/// reference counting (sound together with the no-op drop; the real clone goes through a vtable,
+/// atomics and pointer tagging).
+fn bytes_clone(b: &Bytes) -> Bytes {
+    // SAFETY: the buffer is never freed (drop is a no-op in these harnesses).
+    Bytes::from_static(unsafe { core::slice::from_raw_parts(b.as_ptr(), b.len()) })
+}
+
 fn log_off() -> log::LevelFilter {
     log::LevelFilter::Off
 }
@@ -120,6 +128,7 @@ fn send_all_case(authorized: [bool; 3], modes: [SendMode; 2], joiner: usize) {
 #[kani::proof]
 #[kani::unwind(8)]
 #[kani::stub(<bytes::Bytes as core::ops::Drop>::drop, noop_bytes_drop)]
+#[kani::stub(<bytes::Bytes as core::clone::Clone>::clone, bytes_clone)]
 #[kani::stub(log::max_level, log_off)]
 fn c07_unauthorized_gets_nothing() {
     let mode = any_mode();
@@ -137,6 +146,7 @@ fn c07_unauthorized_gets_nothing() {
 #[kani::proof]
 #[kani::unwind(8)]
 #[kani::stub(<bytes::Bytes as core::ops::Drop>::drop, noop_bytes_drop)]
+#[kani::stub(<bytes::Bytes as core::clone::Clone>::clone, bytes_clone)]
 #[kani::stub(log::max_level, log_off)]
 fn c05_send_all_scenarios() {
     send_all_case([true, true, true], [SendMode::Broadcast, SendMode::Broadcast], 2);
